@@ -123,6 +123,7 @@ type Exec struct {
 	retN2    int
 	presSorts map[string]string
 	epochComps map[int]map[string]string
+	epochParents map[int][]epochParent // a join of different havoc histories: which epoch each joined path was in
 	noStoreHit map[string]bool
 	clauseUsed map[string]int
 	ghostOn  bool
@@ -255,19 +256,38 @@ func (e *Exec) heapGet(st *State, comp, sort string) *Term {
 	if t, ok := st.heap[comp]; ok && t != nil && t.S != "" {
 		return t
 	}
-	n := fmt.Sprintf("%s!e%d", comp, st.epoch)
+	return e.epochDefault(comp, st.epoch, sort)
+}
+
+// epochDefault: the value a component has in a havoc epoch before anything wrote it. An epoch created by
+// joining paths with different havoc histories takes, on each path, the value of that path's epoch.
+func (e *Exec) epochDefault(comp string, epoch int, sort string) *Term {
+	n := fmt.Sprintf("%s!e%d", comp, epoch)
 	if !e.declared[n] {
 		e.declared[n] = true
-		e.emit("(declare-const %s %s)", n, sort)
+		if ps := e.epochParents[epoch]; len(ps) > 0 {
+			m := e.epochDefault(comp, ps[len(ps)-1].epoch, sort)
+			for i := len(ps) - 2; i >= 0; i-- {
+				m = Ite(ps[i].pc, e.epochDefault(comp, ps[i].epoch, sort), m)
+			}
+			e.emit("(define-fun %s () %s %s)", n, sort, m.S)
+		} else {
+			e.emit("(declare-const %s %s)", n, sort)
+		}
 		if e.epochComps == nil {
 			e.epochComps = map[int]map[string]string{}
 		}
-		if e.epochComps[st.epoch] == nil {
-			e.epochComps[st.epoch] = map[string]string{}
+		if e.epochComps[epoch] == nil {
+			e.epochComps[epoch] = map[string]string{}
 		}
-		e.epochComps[st.epoch][comp] = sort
+		e.epochComps[epoch][comp] = sort
 	}
 	return &Term{n, sort}
+}
+
+type epochParent struct {
+	pc    *Term
+	epoch int
 }
 
 var sentinel = &Term{S: "", Sort: ""}
@@ -745,6 +765,12 @@ func (e *Exec) mergeStates(ins []*State) *State {
 		// different havoc histories: components not mentioned are unknown
 		e.epochN++
 		out.epoch = e.epochN
+		if e.epochParents == nil {
+			e.epochParents = map[int][]epochParent{}
+		}
+		for _, s := range ins {
+			e.epochParents[out.epoch] = append(e.epochParents[out.epoch], epochParent{s.pc, s.epoch})
+		}
 	}
 	keys := map[string]bool{}
 	for _, s := range ins {
